@@ -1594,6 +1594,21 @@ func sliceTypeOf(rv reflect.Value) reflect.Type {
 	return rv.Type()
 }
 
+// reverseString reverses s character by character; a byte that is not part of
+// a well-formed UTF-8 sequence counts as a character of its own and is kept as
+// it is (converting it to U+FFFD would change the text, and its length)
+func reverseString(s string) string {
+	out := make([]byte, len(s))
+	pos := len(s)
+	for i := 0; i < len(s); {
+		_, size := utf8.DecodeRuneInString(s[i:])
+		pos -= size
+		copy(out[pos:], s[i:i+size])
+		i += size
+	}
+	return string(out)
+}
+
 func (e *CoreExtension) filterReverse(value interface{}, args ...interface{}) (interface{}, error) {
 	if value == nil {
 		return nil, nil
@@ -1602,11 +1617,7 @@ func (e *CoreExtension) filterReverse(value interface{}, args ...interface{}) (i
 	switch v := value.(type) {
 	case string:
 		// Reverse string
-		runes := []rune(v)
-		for i, j := 0, len(runes)-1; i < j; i, j = i+1, j-1 {
-			runes[i], runes[j] = runes[j], runes[i]
-		}
-		return string(runes), nil
+		return reverseString(v), nil
 	case []interface{}:
 		// Reverse slice
 		result := make([]interface{}, len(v))
@@ -1620,12 +1631,7 @@ func (e *CoreExtension) filterReverse(value interface{}, args ...interface{}) (i
 	rv := reflect.ValueOf(value)
 	switch rv.Kind() {
 	case reflect.String:
-		s := rv.String()
-		runes := []rune(s)
-		for i, j := 0, len(runes)-1; i < j; i, j = i+1, j-1 {
-			runes[i], runes[j] = runes[j], runes[i]
-		}
-		return string(runes), nil
+		return reverseString(rv.String()), nil
 	case reflect.Array, reflect.Slice:
 		// Create a new slice with the same type
 		resultSlice := reflect.MakeSlice(sliceTypeOf(rv), rv.Len(), rv.Len())
